@@ -22,6 +22,7 @@ RULE = ("fault enumeration: for each base scenario (pair, chain of 3, diamond fa
         "pending task; real processes: run() ends within a wall budget, every other process finalizes once and "
         "exits, loop closed, no descriptor leak. non-trivial = fault at request index >= 1 with >= 1 other "
         "simulator; distinct = distinct (scenario, schedule, fault) hashes")
+RULE += '; fault kinds include close_after (the connection closes right behind the reply: the process ends between two requests); every fault also under the default and the per-simulator progress display'
 ASSUMPTIONS = [
     "process death is modelled by closing the in-memory transport from the simulator side; the real-process tier "
     "is sampled and uses wall-clock budgets (90 s, a time-out is re-run once and only a repeated one counts)",
